@@ -205,6 +205,19 @@ class DateTimePairs(Sub):
             for nm, r in (("a + (b - a)", rebuilt), ("a.add(**components)", rebuilt2)):
                 d = abs(T.naive_us(r) - w2)
                 req(d == 0 and r.utcoffset() == b.utcoffset(), f"{nm} != b", a=str(a), b=str(b), components=c, rebuilt=str(r), off_by_us=d)
+        if kind in ("utc", "fixed", "zone") and span > 0:
+            # the same two instants rendered in another fixed offset, decomposed right afterwards in the same process: the
+            # calendar borrow falls differently, so anything remembered from the first decomposition must not leak
+            off2 = 18000 if (kind == "utc" or case["off"] == 0) else 0
+            if kind == "fixed" and case["off"] == 18000:
+                off2 = -12600
+            a2, b2 = pendulum.instance(T.render_fixed(T.us(a), off2)), pendulum.instance(T.render_fixed(T.us(b), off2))
+            iv2 = b2 - a2
+            c2 = interval_components(iv2)
+            check_components("Interval components (same instants, other fixed offset)", (c2[0], c2[1], c2[2] * 7 + c2[3], c2[4], c2[5], c2[6], c2[7]),
+                             D.datetime(*T.fields(a2)), D.datetime(*T.fields(b2)))
+            r2 = a2 + iv2
+            req(T.us(r2) == T.us(b2), "a + (b - a) != b for the same instants rendered in another fixed offset", a=str(a2), b=str(b2), components=c2, rebuilt=str(r2))
         if span > 0:
             rc = interval_components(a - b)
             exp = tuple(-v for v in c)
